@@ -177,6 +177,10 @@ def run_case(case: dict) -> Result:
             # open finding: in a compact layout ('10.00USD', '1"a"2') the removed child was the only thing between its neighbours
             texts = [(x.raw_text, y.raw_text) for x, y in zip(O.store_tokens(root.token_store), O.store_tokens(root.token_store)[1:]) if (id(x), id(y)) in tight_pairs(root) - tight0]
             bad = ('removal-glues-tight-neighbours', f'after {op} the tokens {texts[:2]} touch, which they did not before: {bad[1][:400]}')
+        elif bad and pinned and (tight_pairs(root) - tight0) and a.inserted:
+            # the same open finding from the other side: a child inserted / put in place of another next to a neighbour that was written without a blank
+            texts = [(x.raw_text, y.raw_text) for x, y in zip(O.store_tokens(root.token_store), O.store_tokens(root.token_store)[1:]) if (id(x), id(y)) in tight_pairs(root) - tight0]
+            bad = ('insertion-glues-tight-neighbours', f'after {op} the tokens {texts[:2]} touch: {bad[1][:400]}')
         if bad and pinned and any(type(t).__name__ == 'BlockComment' and not t.claimed for t in O.store_tokens(root.token_store)):
             bad = ('edit-next-to-unowned-comment', f'with an unowned comment in the document: {bad[1][:500]}')
         if bad:
